@@ -24,6 +24,8 @@ mod c11;
 mod c11_more;
 mod c12;
 mod c12_more;
+mod c13;
+mod c13_more;
 mod replay;
 
 use common::{Ctx, Tier};
@@ -76,6 +78,7 @@ fn main() {
         "C16" => c16::run(&Ctx::new("C16", tier)),
         "C11" => c11::run(&Ctx::new("C11", tier).reduced().with_filter(|k| k.contains("roundtrip") || k.contains("wrapper") || k.starts_with("panic|"))),
         "C12" => c12::run(&Ctx::new("C12", tier).reduced().with_filter(|k| k.contains(".image.") || k.contains(".size.") || k.starts_with("panic|"))),
+        "C13" => c13::run(&Ctx::new("C13", tier)),
         "C06" => c06::run(&Ctx::new("C06", tier).with_filter(|k| !k.contains("cpc.bounds"))),
         "C05" => c05::run(&Ctx::new("C05", tier).with_filter(|k| !k.starts_with("cpc.bounds"))),
         "C04" => c04::run(&Ctx::new("C04", tier).with_filter(|k| !k.starts_with("theta.bounds"))),
